@@ -111,3 +111,13 @@ MUTANTS += [
     dict(property='C09', name='unknown pair name silently skipped', file=BASEF, old="        if input_str in self._paramDict:\n            return self._paramDict[input_str]\n        else:\n            raise InputError(\"Input parameter: %s does not exist\" % input_str)", new="        if input_str in self._paramDict:\n            return self._paramDict[input_str]\n        else:\n            return self._paramDict[self._paramList[0].ID]"),
     dict(property='C16', name='frozen distribution drawn with a private RandomState', file=BASEF, old="param_out[f(inParam)] = value.rvs(1)[0]", new="param_out[f(inParam)] = value.rvs(1, random_state=np.random.RandomState())[0]"),
 ]
+CANF = 'pygom/model/ode_utils/compile_canary.py'
+MUTANTS += [
+    dict(property='C08', name='add_ode does not invalidate (the original defect)', file=BASEF, old="                self._odeList.append(eqn)\n                self._hasNewTransition.trip()", new="                self._odeList.append(eqn)"),
+    dict(property='C08', name='evaluator ignores its recompile flag', file=DETF, old="            if not hasattr(self, compiled_obj_name) or getattr(self._hasNewTransition, method_name):", new="            if not hasattr(self, compiled_obj_name):"),
+    dict(property='C08', name='master evaluator does not trip the others', file=DETF, old="        if is_master_canary:\n            self._hasNewTransition.trip()", new="        if False:\n            self._hasNewTransition.trip()"),
+    dict(property='C08', name='compile clears the ode flag instead of its own', file=DETF, old="        self._hasNewTransition.reset(method_name)", new="        self._hasNewTransition.reset('ode')"),
+    dict(property='C08', name='param_list setter does not invalidate', file=BASEF, old="            raise InputError(\"Expecting a list\")\n\n        self._hasNewTransition.trip()\n\n    @property\n    def derived_param_list", new="            raise InputError(\"Expecting a list\")\n\n    @property\n    def derived_param_list"),
+    dict(property='C08', name='compiled closure freezes the parameter values at compile time', file=DETF, old="        def comp_obj(state, time):\n            return compiled_obj(self._getEvalParam(state, time, None))", new="        frozen = list(self._paramValue)\n        def comp_obj(state, time):\n            return compiled_obj(list(state) + [time] + frozen)"),
+    dict(property='C08', name='add_birth_death(D) does not invalidate', file=BASEF, old="                self._birthDeathList.append(death_event)\n                self._hasNewTransition.trip()   ", new="                self._birthDeathList.append(death_event)"),
+]
